@@ -197,24 +197,44 @@ def c01d(ctx, tu):
         if not m:
             continue
         n += 1
-        idx = [x for x in m.group(1).split(",") if x.strip()]
-        pm = [e for b, e in fn.events() if e["e"] == "call" and qe(e) == "trompeloeil::param_matches"]
-        ands = [e for b, e in fn.events() if e["e"] == "assign" and e.get("rhs", [None, None])[:2] == ["b", "&&"]]
-        rets = [e.get("x") for b, e in fn.events() if e["e"] == "return"]
-        ok = len(pm) == len(idx) and len(ands) == len(idx) and len(rets) == 1 and rets[0][:1] == ["var"]
-        if ok and ands:
-            acc = rets[0][1]
-            ok = all(a["lhs"][:2] == ["var", acc] and a["rhs"][2][:2] == ["var", acc] and
-                     lib.tree_name(a["rhs"][3]) == "trompeloeil::param_matches" for a in ands)
-            # each index used exactly once: std::get<I> of both tuples
-            used = sorted(re.findall(r"std::get<(\d+)", str([a["rhs"][3] for a in ands])))
-            ok = ok and len(set(used)) == len(idx)
-        if ok:
-            init = [e for b, e in fn.events() if e["e"] == "decl" and rets[0][:1] == ["var"] and e["var"] == rets[0][1]]
-            ok = bool(init) and init[0].get("init") == ["bool", True]
+        idx = [x.strip().rstrip("UL").rstrip("ul") for x in m.group(1).split(",") if x.strip()]
+        # semantic: for every valuation of "parameter i matches" the result is the conjunction, and when all match
+        # every index has been asked (the fold may be an accumulate over a pack expansion, a recursion
+        # over the index pack, a helper - the function is interpreted, helpers followed)
+        from engine.table import Interp, Unknown
+        from rules.common import Oracle
+        import itertools
+        k = len(idx)
+        if k <= 3:
+            vals = list(itertools.product((True, False), repeat=k))
+        else:
+            vals = [tuple(True for _ in idx)] + [tuple(j != i for j in range(k)) for i in range(k)]
+        why = None
+        try:
+            for v in vals:
+                asked = []
+
+                def pm(t, it, v=v, asked=asked):
+                    g = re.findall(r"std::get<(\d+)", str(t[3]))
+                    if len(set(g)) != 1 or g[0] not in idx:
+                        raise Unknown("param_matches on something else than the same index of both tuples")
+                    asked.append(g[0])
+                    return v[idx.index(g[0])]
+                o = Oracle(calls={"trompeloeil::param_matches": pm}, any_call=True, any_param=True).descend_into(tu, depth=20)
+                it = Interp(fn, o)
+                r = it.run(max_steps=4000)
+                if r[0] != "return" or bool(r[1]) != all(v):
+                    why = why or "with parameters matching %s the result is %s" % (list(v), r[1] if r[0] == "return" else r[0])
+                if all(v) and set(asked) != set(idx):
+                    why = why or "when every parameter matches, the indices asked are %s (of %s)" % (sorted(set(asked)), sorted(idx))
+            ok = why is None
+        except Unknown as u:
+            ctx.ob("C01.d", "trompeloeil::match_parameters", None, pattern=fn.pat, unit=tu.name, inst=fn.q,
+                   detail="cannot interpret: %s" % u)
+            continue
         ctx.ob("C01.d", "trompeloeil::match_parameters", ok, pattern=fn.pat, unit=tu.name, inst=fn.q,
-               detail="" if ok else "all parameters must be matched: a conjunction of param_matches over every index, "
-               "starting from true")
+               detail="" if ok else "all parameters must be matched (the result is the conjunction of param_matches over "
+               "every index): " + (why or ""))
     for fn in tu.find("trompeloeil::param_matches_impl"):
         third = fn.rec["params"][2]["t"] if len(fn.rec["params"]) > 2 else ""
         rets = [e.get("x") for b, e in fn.events() if e["e"] == "return"]
